@@ -181,7 +181,7 @@ func classify(c Case) (bool, uint64, []string) {
 }
 
 func TestFitRandom(t *testing.T) {
-	harness.Rapid(t, harness.N(200000, 16*2000000), func(t *rapid.T) {
+	harness.Rapid(t, harness.N(200000, 16*8000000), func(t *rapid.T) {
 		c := genCase(t)
 		nt, h, labels := classify(c)
 		subFit.See(c, nt, h, labels...)
